@@ -11,7 +11,7 @@ import sys
 REPO = os.environ.get('VERIF_REPO', '/repo')
 VERIF = os.path.dirname(os.path.dirname(os.path.abspath(__file__)))
 SPEC = os.path.join(VERIF, 'spec')
-EVIDENCE = os.path.join(VERIF, 'evidence')
+EVIDENCE = os.environ.get('VERIF_EVIDENCE', os.path.join(VERIF, 'evidence'))   # selftest runs against seeded changes write elsewhere
 SHM = '/dev/shm' if os.path.isdir('/dev/shm') else '/var/tmp'
 
 if REPO not in sys.path:
